@@ -33,6 +33,8 @@ def run(tier, seed, replay=None):
     # mesh level (StableImpliesExact): real meshes, final advertisement tables validated by TLC
     nsc = 12 if tier == "quick" else 120
     mo = tracecheck.run(wd, ["adsmesh", "-scenarios", str(nsc), "-seed", str(seed)], "AdsConverged", "AdsConverged.cfg", "adsmesh")
+    for viol in mo["harness"]["violations"]:
+        v.violation(viol["sig"], viol["what"], viol["replay"])
     for d in mo["diffs"]:
         fin = d["segment"][-1]
         kinds = sorted(set(x.split(":", 1)[1] for x in d["fields"]))
